@@ -90,13 +90,24 @@ Definition float_of_Z (z : Z) : float :=
 (* Go's math.Pow special-cases y = 2 / -1 only through its general algorithm, which for these two
    exponents performs exactly one correctly rounded multiplication resp. division (frexp/ldexp
    scaling is exact away from the subnormal range). *)
+Fixpoint fpow_nat (x : float) (n : nat) : float :=
+  match n with O => 1%float | S O => x | S n' => (fpow_nat x n' * x)%float end.
+
+(* the exponent when y is one of the small integers 3..24 (RoundDigits uses math.Pow(10, d); 10^d is exactly
+   representable for d <= 22, so any evaluation order with exact intermediate products gives Go's result) *)
+Fixpoint small_int_exp (y : float) (k : nat) (fuel : nat) : option nat :=
+  match fuel with
+  | O => None
+  | S f => if PrimFloat.eqb y (float_of_Z (Z.of_nat k)) then Some k else small_int_exp y (S k) f
+  end.
+
 Definition fpow_model (x y : float) : float :=
   if PrimFloat.eqb y 2%float then (x * x)%float
   else if PrimFloat.eqb y (-1)%float then (1 / x)%float
   else if PrimFloat.eqb y 1%float then x
   else if PrimFloat.eqb y 0%float then 1%float
   else if PrimFloat.eqb y 0.5%float then PrimFloat.sqrt x
-  else nan.
+  else match small_int_exp y 3 22 with Some n => fpow_nat x n | None => nan end.
 
 (* math.Max *)
 Definition fmax_model (x y : float) : float :=
